@@ -22,6 +22,7 @@ def main():
         core.DEFAULT_PROPS[:] = list(getattr(mod, 'PROPS', []))
         if getattr(mod, 'REPLAY', None): core.DEFAULT_REPLAY['replay'] = dict(mod.REPLAY)
         src = core.Source(edits=[tuple(e.split('=>', 1)) for e in a.edit])
+        core.register_repo_classes(src)
         try:
             info = mod.generate(src) or {}
         except core.Unsupported: raise
